@@ -96,7 +96,12 @@ class _Settings:
 
     @cached_property
     def scale(self) -> pd.Series | float:
-        return self.data.std()
+        # A single observable or a constant column has no spread to scale by: dividing
+        # by it would turn the whole loss (or that column) into NaN
+        scale = self.data.std()
+        if hasattr(scale, "where"):  # one scale per column
+            return scale.where(scale > 0, 1.0)
+        return scale if scale > 0 else 1.0
 
     @cached_property
     def data_scaled(self) -> pd.Series | pd.DataFrame:
